@@ -53,9 +53,11 @@ def encode(method, data):
     if method == "lzma":
         raw = lzma.compress(data, format=lzma.FORMAT_ALONE)
         return b"\x03\x01\x01", raw[:5], raw[13:]
-    if method == "lzma2":
-        raw = lzma.compress(data, format=lzma.FORMAT_RAW, filters=[{"id": lzma.FILTER_LZMA2, "dict_size": 1 << 20}])
-        return b"\x21", bytes([16]), raw
+    if method == "lzma2" or method.startswith("lzma2:"):
+        # LZMA2 property byte p: dictionary size (2 | (p & 1)) << (p // 2 + 11)
+        p = int(method.split(":")[1]) if ":" in method else 16
+        raw = lzma.compress(data, format=lzma.FORMAT_RAW, filters=[{"id": lzma.FILTER_LZMA2, "dict_size": (2 | (p & 1)) << (p // 2 + 11), "preset": 0}])
+        return b"\x21", bytes([p]), raw
     raise ValueError(method)
 
 
@@ -171,6 +173,24 @@ def member_sets():
     yield list(DOCS)                                                                      # six members: >= 3 folders / blocks
     yield [("d\u00e9j\u00e0/\u00fcber.txt", b"non-ascii name"), ("\u65e5\u672c.md", "# \u65e5\u672c".encode()), DOCS[0], ("big.txt", b"0123456789" * 3000)]
     yield [DOCS[1], DOCS[0]] + [(f"n{i}.txt", f"member {i}".encode() * (i + 1)) for i in range(9)]      # eleven members
+    # UTF-16 code units with a zero low / high byte next to each other, surrogate pairs, combining marks
+    yield [("plan\u4e00.txt", b"cjk one after ascii"), ("L\u0100tvija.md", b"# a-macron"), ("x\u2200y\u0100\u00ff.txt", b"for all"),
+           ("\u0100\u0100.txt", b"two macrons"), ("emoji\U0001f600.txt", b"non-BMP"), ("a\u0300.txt", b"combining"), DOCS[0]]
+    # base names that merely CONTAIN an archive extension, upper-case extensions, several dots, spaces
+    yield [("docs/sales.targets.txt", b"targets"), ("us.zipcodes.csv", b"zip,city\n1,a\n"), ("backup.7z.notes.txt", b"notes"), ("v1.2.tgz.readme.md", b"# readme"),
+           ("REPORT.TXT", b"upper"), ("my report (final).txt", b"spaces"), ("real.tar.gz", b"\x1f\x8b\x08"), ("x.txz.md", b"# x")]
+    # more than 8 / 16 entries with directories and zero-length files interleaved (bit vectors spanning several bytes)
+    many = []
+    for i in range(21):
+        if i % 5 == 1:
+            many.append((f"dir{i}", None))
+        elif i % 7 == 3:
+            many.append((f"dir1/empty{i}.txt", b""))
+        else:
+            many.append((f"dir1/m{i:02d}.txt", f"member number {i}\n".encode() * (1 + i % 4)))
+    yield many
+    yield [("deep/" * 12 + "n" * 90 + ".txt", b"long name"), DOCS[0]]                      # a name longer than 127 UTF-16 units
+    yield [(f"f{i:03d}.txt", f"{i}".encode()) for i in range(130)]                          # >= 128 entries: two-byte NUMBERs for counts
 
 
 def observe(r):
@@ -286,8 +306,7 @@ def check_read_number():
 
 def check_bool_vector():
     for count in range(0, 20):
-        for pattern in (0x00, 0xFF, 0xA5, 0x3C):
-            data = bytes([pattern]) * 4
+        for data in (bytes(4), b"\xff" * 4, b"\xa5\x3c\x81\x0f", b"\x01\x80\x7e\xc3", bytes([0xA5]) * 4):
             r = reader_on(data)
             got = r._read_boolean_vector(count)
             want = [bool(data[i // 8] & (0x80 >> (i % 8))) for i in range(count)]
@@ -301,8 +320,8 @@ def check_bool_vector_defined():
     """Digests-style vector: allAreDefined byte, then (if 0) the bit vector"""
     for count in range(0, 18):
         for first in (0x00, 0x01, 0xFF):
-            for pattern in (0x00, 0xFF, 0xA5):
-                data = bytes([first]) + bytes([pattern]) * 4
+            for tail in (bytes(4), b"\xff" * 4, b"\xa5\x3c\x81\x0f", b"\x01\x80\x7e\xc3"):
+                data = bytes([first]) + tail
                 r = reader_on(data)
                 got = r._read_boolean_vector(count, check_defined=True)
                 if first:
@@ -469,6 +488,47 @@ def check_7z_bytes():
     return None
 
 
+def check_7z_large_solid():
+    """a solid LZMA2 folder larger than common window sizes, written with a 32 MiB dictionary (7-Zip: 16 MiB at -mx=5, 64 MiB at -mx=9),
+    whose last member repeats the beginning of the first one (a match reaching back > 8 MiB): every member's own bytes come out"""
+    import random
+    import tempfile
+    from sharepoint2text.parsing.extractors.util.sevenzip import SevenZipReader
+    rnd = random.Random(1010)
+    first = rnd.randbytes(4_700_000)
+    entries = [("big/a.bin", first), ("big/b.bin", rnd.randbytes(4_700_000)), ("big/c.bin", first[:300_000] + b"tail")]
+    cache = os.path.join(os.path.dirname(os.path.dirname(os.path.abspath(__file__))), "out", "cache", "c10_large_solid_v1.7z")
+    data = None
+    if os.path.exists(cache):                       # the archive is deterministic; compressing it takes ~5 s, reading it back none
+        raw = open(cache, "rb").read()
+        data = raw[:-4] if len(raw) > 36 and zlib.crc32(raw[32:-4]) == struct.unpack("<I", raw[-4:])[0] else None
+    if data is None:
+        data = write7z(entries, "lzma2:26", True, with_crc=False)
+        try:
+            os.makedirs(os.path.dirname(cache), exist_ok=True)
+            open(cache, "wb").write(data + struct.pack("<I", zlib.crc32(data[32:])))
+        except OSError:
+            pass
+    obs = None
+    try:
+        rd = SevenZipReader(io.BytesIO(data))
+        with tempfile.TemporaryDirectory() as td:
+            rd.extractall(td)
+            for n, d in entries:
+                b = open(os.path.join(td, n), "rb").read() if os.path.exists(os.path.join(td, n)) else None
+                if b != d:
+                    obs = f"member {n!r}: extracted {None if b is None else len(b)} bytes, archive holds {len(d)} bytes (content differs)"
+                    break
+    except Exception as e:  # noqa
+        obs = f"{type(e).__name__}: {e}"
+    if obs:
+        return {"target": "sevenzip.py::SevenZipReader (extractall, LZMA2)", "inputs": {"layout": "7z one solid LZMA2 folder, property byte 26 (32 MiB dictionary)",
+                                                                                    "members": [[n, f"{len(d)} bytes"] for n, d in entries],
+                                                                                    "note": "c.bin repeats the first 300000 bytes of a.bin, 9.4 MB earlier"},
+                "expected": "every member extracted with its own bytes", "observed": obs}
+    return None
+
+
 # ------------------------------------------------------------------ findings --
 def finding(fid):
     if fid == "F10-one-folder-per-file":
@@ -519,7 +579,7 @@ def find(req):
     ob = req.get("obligation", "") or ""
     checks = []
     ALL = [check_read_number, check_bool_vector, check_bool_vector_defined, check_pack_info, check_detect, check_7z_bytes,
-           check_tar_member_read_failure, matrix]
+           check_tar_member_read_failure, matrix, check_7z_large_solid]
     if "native-scope" in ob:
         checks = ALL
     elif "_read_number" in ob or "_read_uint" in ob or "_read_bytes" in ob:
